@@ -336,6 +336,52 @@ def one_system(rec, seedt, force_correlated=False):
                           f"from the base residual by {d.max():.3e} x asd_y")
 
 
+def bias_case(rec, seedt):
+    """Without detrending (order -1) a constant record is a legitimate input: its windowed
+    segments are identical and non-zero, and an output that contains that constant plus a static
+    combination of the other inputs is an EXACT linear combination of all inputs - the residual
+    must vanish to rounding, from both solvers."""
+    from speckit import systems, compute_spectrum
+    rng = gen.rng_for(*seedt)
+    q0 = int(rng.choice([1, 2, 3]))
+    N = int(rng.integers(2000, 8000))
+    xs = [gen.record(rng, N, str(rng.choice(["white", "ar1"]))) for _ in range(q0)]
+    B = float(rng.choice([1.0, 50.0, 1e-3, -7.0]))
+    bias = np.full(N, B)
+    coef = rng.uniform(0.3, 2.0, size=q0 + 1) * rng.choice([-1, 1], size=q0 + 1)
+    y = coef[0] * bias + sum(c * x for c, x in zip(coef[1:], xs))
+    pos = int(rng.integers(0, q0 + 1))
+    inputs = xs[:pos] + [bias] + xs[pos:]
+    kw = options(rng, N)
+    kw["order"] = -1
+    fs = float(rng.choice([1.0, 100.0]))
+    desc = {"kind": "bias-input", "seed": list(seedt), "q": q0 + 1, "N": N, "B": B, "pos": pos,
+            "sched": kw["scheduler"]}
+    rec.case(desc, nontrivial=True)
+    ry = api.attempt(rec, lambda: compute_spectrum(y, fs, **kw), "output spectrum")
+    if ry is None:
+        return
+    asd_y = np.asarray(ry.asd)
+    sel = (np.asarray(ry.K) > q0 + 1) & (asd_y > 1e-12 * float(np.max(asd_y)))
+    if not np.any(sel):
+        return
+    rec.count("constant_input_systems")
+    for name, fn in (("numeric", systems.MISO_numeric_optimal_spectral_analysis),
+                     ("analytic", systems.MISO_analytic_optimal_spectral_analysis)):
+        out = api.attempt(rec, lambda: fn(inputs, y, fs, **kw), f"MISO_{name} with a constant input")
+        if out is None:
+            continue
+        with np.errstate(all="ignore"):
+            r = np.asarray(out[1])[sel] / asd_y[sel]
+        worst = float(np.max(np.where(np.isfinite(r), r, np.inf)))
+        rec.ratio("constant_input_residual_over_1e-6", worst / 1e-6)
+        if not (worst <= 1e-6):
+            rec.violation(f"exact-combination-residual:{name}",
+                          f"[q={q0 + 1}, order -1, {kw['scheduler']}] {name}: the output is "
+                          f"{coef[0]:.3g} x a constant input ({B}) plus a static combination of the "
+                          f"other inputs, but residual/output = {worst:.3e}")
+
+
 def collinear_case(rec, seedt):
     """Exactly collinear inputs (a duplicated input, or one input that is a linear combination of
     the others): the input spectral matrix is singular.  The numeric solver must still return a
@@ -410,6 +456,8 @@ def run_shard(params, rec):
         collinear_case(rec, [params["seed"], params["shard"], "col", i])
     for i in range(max(2, params["n"] // 5)):
         one_system(rec, [params["seed"], params["shard"], "corr", i], force_correlated=True)
+    for i in range(max(2, params["n"] // 5)):
+        bias_case(rec, [params["seed"], params["shard"], "bias", i])
     t0 = time.time()
     for i in range(params["n"]):
         if time.time() - t0 > params["budget_s"]:
@@ -421,4 +469,6 @@ def run_shard(params, rec):
 def replay(case, rec):
     if case.get("kind") == "collinear":
         return collinear_case(rec, case["seed"])
+    if case.get("kind") == "bias-input":
+        return bias_case(rec, case["seed"])
     one_system(rec, case["seed"], force_correlated=bool(case.get("forced")))
